@@ -58,7 +58,7 @@ def gen_scene(seed, k, family):
     elif family == 'degenerate':
         kind = rng.choice(['single', 'allnan', 'identical', 'twovalued', 'vv', 'type0height', 'hightype', 'typednan',
                            'coincident', 'subsecond', 'daylong', 'typednan23', 'orphan', 'orphan', 'twofirst', 'twofirst',
-                           'small_multi', 'small_multi', 'one_step', 'one_step'])
+                           'small_multi', 'small_multi', 'one_step', 'one_step', 'null_range', 'null_range', 'null_range'])
         meta['kind'] = kind
         n = rng.choice([1, 2, 5, 12, 40])
         if kind == 'single':
@@ -125,6 +125,14 @@ def gen_scene(seed, k, family):
             nc = rng.choice([2, 4, 5, 6])
             rows = [(str(c), -15.0 * i, float('nan'), 0) for c in range(nc) for i in range(1, max(n, 6))]
             rows += [(str(c), 0.0, 2900.0 + 3.0 * c, 1) for c in range(nc)]
+        elif kind == 'null_range':
+            # one or several valid hits of one single height among non-detections, with no minimum range for the height
+            # scaling of the slicing: a range of width zero (the case repaired as F6)
+            hv = float(rng.choice([0, 150, 1500, 30000]))
+            nv = rng.choice([1, 1, 2, 7, 30])
+            rows = [(str(i % rng.choice([1, 2])), -15.0 * i, hv if i < nv else float('nan'), 1 if i < nv else 0)
+                    for i in range(nv + rng.choice([1, 3, 10]))]
+            rng.shuffle(rows)
         elif kind == 'coincident':
             rows = [(str(c), -15.0 * i, 700.0 + 10 * c + i, 1) for i in range(max(n, 5)) for c in range(3)]
         elif kind == 'subsecond':
@@ -132,6 +140,9 @@ def gen_scene(seed, k, family):
         else:
             rows = [('0', -7200.0 * i, 2000.0 + 30 * (i % 5), 1) for i in range(max(n, 12))]
         prms = scenes.random_prms(rng, rows) if rng.random() < 0.5 else {}
+        if kind == 'null_range':
+            prms.setdefault('SLICING_PRMS', {})
+            prms['SLICING_PRMS'] = dict(prms['SLICING_PRMS'], height_scale_kwargs={'min_range': 0})
         if kind == 'small_multi':
             prms['MAX_HITS_OKTA0'] = rng.choice([2, 3, 3, 4])
         if kind == 'one_step':
